@@ -269,7 +269,54 @@ func gen(r *vlib.R, n int, tier string, emit func(string)) {
 		for j := range ids {
 			ids[j] = fmt.Sprint(1 + r.Intn(65535))
 		}
-		emit(fmt.Sprintf("share run %d %s", 20+r.Intn(20), strings.Join(ids, ",")))
+		emit(fmt.Sprintf("share run %d %s %s", 20+r.Intn(20), strings.Join(ids, ","), vlib.B(i%2 == 1)))
+		n--
+	}
+	// 2b. the same, end to end: DNSSEC + QNAME minimisation, different names under one nonexistent
+	// signed parent, the root holding the shared minimised probe
+	walks := 1
+	if thorough {
+		walks = 4
+	}
+	for i := 0; i < walks; i++ {
+		k := 2 + r.Intn(3)
+		ids := make([]string, k)
+		for j := range ids {
+			ids[j] = fmt.Sprint(1 + r.Intn(65535))
+		}
+		emit(fmt.Sprintf("share walk %d %s", 250+r.Intn(100), strings.Join(ids, ",")))
+		n--
+	}
+	// 2c. DoQ: several streams on one connection, handlers released in a scripted order
+	doqs := 5
+	if thorough {
+		doqs = 30
+	}
+	for i := 0; i < doqs; i++ {
+		k := 2 + r.Intn(4)
+		order := make([]int, k)
+		for j := range order {
+			order[j] = j
+		}
+		for j := k - 1; j > 0; j-- {
+			x := r.Intn(j + 1)
+			order[j], order[x] = order[x], order[j]
+		}
+		if i == 0 {
+			for j := range order { // the earliest query finishes last
+				order[j] = k - 1 - j
+			}
+		}
+		var os, bs []string
+		for j := range order {
+			os = append(os, fmt.Sprint(order[j]))
+			bs = append(bs, vlib.Pick(r, []string{"ok", "ok", "ok", "ok", "nr", "pn"}))
+		}
+		emit(fmt.Sprintf("doq conn %s %s", strings.Join(os, ","), strings.Join(bs, ",")))
+		n--
+	}
+	for i := 0; i < 1+doqs/10; i++ {
+		emit(fmt.Sprintf("doq run %d %d %d %d", r.U64()%1000000, 3+r.Intn(3), 3+r.Intn(4), 6))
 		n--
 	}
 	// 3. the real Server behind the single-stepped engines
